@@ -197,4 +197,40 @@ def run():
             c.violation('oracle', 'a %s parsed from JSON near the size limit does not read back its tags' % kind, short)
         else:
             c.nontriv(('json-edge', kind, len(ts), tags_size(ts)))
+    # ---- the JSON constructors into buffers of every length around the needed one, the LAST thing written being a character
+    # of each UTF-8 length class, raw and as an escape: a buffer that is too small by 1..5 bytes yields an error, never a value
+    el, em = [], []
+    EVH = b'{"id":"' + b'11' * 32 + b'","pubkey":"' + b'22' * 32 + b'","created_at":5,"kind":1,"sig":"' + b'33' * 64 + b'","tags":[],"content":"'
+    lasts = [(b'\\u0041', b'A'), (b'\\n', b'\n'), (b'\\u00e9', '\u00e9'.encode()), (b'\\u07ff', '\u07ff'.encode()), (b'\\u0800', '\u0800'.encode()),
+             (b'\\u2020', '\u2020'.encode()), (b'\\uFFFF', '\uffff'.encode()), ('\u00e9'.encode(), '\u00e9'.encode()),
+             ('\u2020'.encode(), '\u2020'.encode()), ('\U0001f600'.encode(), '\U0001f600'.encode()), (b'z', b'z')]
+    for esc, val in lasts:
+        for pre_ in (b'', b'xy'):
+            forms = [('tags', b'[["a","' + pre_ + esc + b'"]]', tags_size([[b'a', pre_ + val]]), 'TGJ'),
+                     ('event', EVH + pre_ + esc + b'"}', 144 + 4 + 4 + len(pre_ + val), 'EVJ'),
+                     ('filter', b'{"#t":["' + pre_ + esc + b'"]}', 32 + tags_size([[b't', pre_ + val]]), 'FLJ'),
+                     ('unescape', pre_ + esc + b'"', len(pre_ + val), 'UNE')]
+            for kind, txt, need, cmd in forms:
+                for bl in range(max(0, need - 5), need + 3):
+                    el.append('%s %s %d %d' % (cmd, hx(txt), bl, rng.randrange(1, 1 << 40)))
+                    em.append((kind, need, bl, pre_ + val))
+    we, me = c.run_both(el)
+    c.evaluations += len(el)
+    for l, (kind, need, bl, val), a, b in zip(el, em, we, me):
+        cls = a.split(' ')[0]
+        c.count('fit-%s:%s:%s' % (kind, 'enough' if bl >= need else 'short', cls))
+        if cls in ('panic', 'ABORT', 'HANG', 'GUARD'):
+            c.violation('oracle', '%s from JSON into a buffer of %d bytes (needs %d) did not return a value or error: %s' % (kind, bl, need, a[:60]), [l])
+            continue
+        if a.split(' ')[:3] != b.split(' ')[:3]:
+            c.violation('corr', '%s from JSON, buffer %d of %d needed: impl %s model %s' % (kind, bl, need, a[:50], b[:50]), [l], found=False)
+        if bl < need and cls == 'ok':
+            c.violation('oracle', '%s from JSON returned a value from a buffer of %d bytes although the value needs %d: truncated' % (kind, bl, need), [l])
+        elif bl >= need and cls != 'ok':
+            c.violation('oracle', '%s from JSON refused a buffer of %d bytes although the value needs %d' % (kind, bl, need), [l])
+        elif cls == 'ok':
+            if val.hex() not in a:
+                c.violation('oracle', '%s from JSON: the last string is not reproduced' % kind, [l])
+            else:
+                c.nontriv(('fit', kind, need, bl))
     c.finish()
